@@ -49,13 +49,20 @@ func asciiToInt(bts []byte) (ret int, err error) {
 		return 0, fmt.Errorf("converting empty bytes to int")
 	}
 	for i := 0; i < n; i++ {
-		if bts[i]&0xf0 != 0x30 {
+		// NOTE: 0x3a-0x3f (":;<=>?") share the high-order bits with digits.
+		if bts[i] < '0' || bts[i] > '9' {
 			return 0, fmt.Errorf("%s is not a numeric character", string(bts[i]))
 		}
-		ret += int(bts[i]&0xf) * pow(10, n-i-1)
+		d := int(bts[i] & 0xf)
+		if ret > (maxInt-d)/10 {
+			return 0, fmt.Errorf("%s overflows int", string(bts))
+		}
+		ret = ret*10 + d
 	}
 	return ret, nil
 }
+
+const maxInt = int(^uint(0) >> 1)
 
 // pow for integers implementation.
 // See Donald Knuth, The Art of Computer Programming, Volume 2, Section 4.6.3.
